@@ -152,8 +152,12 @@ class Runner:
         layer_names = {layer_from_name(layer_name): layer_name
                        for layer_name in self.tests_by_layer_name}
         for layer in order_by_bases(layer_names):
-            layer_name = layer_names[layer]
-            yield layer_name, layer, self.tests_by_layer_name[layer_name]
+            # Several registered names may denote the same layer object
+            # (e.g. a dotted-name alias given as a string): run each of them.
+            for layer_name in sorted(self.tests_by_layer_name):
+                if layer_from_name(layer_name) is layer:
+                    yield (layer_name, layer,
+                           self.tests_by_layer_name[layer_name])
 
     def register_tests(self, tests):
         """Registers tests."""
